@@ -193,6 +193,11 @@ func Verif_C09_ArchScripts() {
 			}
 		}
 	}
+	// two events may be served by one script file: both slots must then carry it
+	if set[3] && set[0] && v.NondetBool("share.one.file") {
+		sc.Info.Scripts.PostInstall = sc.Info.Scripts.PreInstall
+		body[0] = body[3]
+	}
 	es, ok := verifBuild(sc)
 	v.Reach("C09.arch.ran")
 	if !ok {
